@@ -208,4 +208,16 @@ def obligations(tier):
                         'functions': ['DirectoryRecord._add_child', 'PyCdlib._add_child_to_dr', 'UDFFileEntry.add_file_ident_desc', 'PyCdlib._add_fp',
                                       'PyCdlib.add_directory', 'PyCdlib.add_hard_link', 'PyCdlib.add_symlink', 'PyCdlib.add_eltorito'],
                         'samples': [(1, 2049)]})
+    for nm, fn, params, b in (
+            ('dr_fit/file', 'dr_fit', {}, 'directory record of a file, interchange level 4'),
+            ('dr_fit/dir', 'dr_fit', {'isdir': True}, 'directory record of a directory, interchange level 4'),
+            ('dr_fit/file_xa', 'dr_fit', {'xa': True}, 'directory record of a file with an XA record'),
+            ('fid_fit/latin1', 'fid_fit', {}, 'UDF file identifier, Latin-1 name'),
+            ('fid_fit/ucs2', 'fid_fit', {'wide': True}, 'UDF file identifier, name needing 16-bit characters'),
+            ('fid_fit/dir', 'fid_fit', {'isdir': True}, 'UDF file identifier of a directory')):
+        obs.append({'name': 'C13.b/%s' % nm, 'engine': 'chx', 'module': 'vf.props.C13_h', 'func': fn, 'params': params, 'cond_timeout': 600, 'path_timeout': 100,
+                    'bounds': '%s; identifier of n bytes/characters for EVERY n in [1, 100000] (content opaque: a length-only object): refused with '
+                              'PyCdlibInvalidInput when created, or the computed length is exact and fits its one-byte field.  Rock Ridge records '
+                              '(continuation handling) and the name checks of levels 1-3 (C13.a) are outside this obligation' % b,
+                    'functions': ['DirectoryRecord._new', 'UDFFileIdentifierDescriptor.new'], 'samples': [(5,), (300,)], 'stubs': ['M_struct', 'length-only identifier objects']})
     return obs
